@@ -184,6 +184,8 @@ def judge(ctx, q, stats, info):
                 n._q_metadata = {"k": 1}
         ctx.count("inputs-with-q-metadata-annotations")
     snap = astx.dump_fields(arg)
+    # what a real query carries on its nodes besides syntax: the dataset object (uncopyable, identity matters)
+    carried = astx.attach_object(arg, ctx.rnd) if ctx.rnd.random() < 0.5 else None
     try:
         got = remove_empty_metadata(arg)
     except Exception as e:
@@ -192,6 +194,12 @@ def judge(ctx, q, stats, info):
         return
     ctx.case("r" + key, nontrivial=bool(nt))
     exp = refimpl.remove_empty(q)
+    if carried is not None:
+        ctx.count("inputs-carrying-an-object-on-a-node")
+        holder_removed = any(getattr(n, "_eds_object", None) is carried and refimpl.is_metadata(n) and isinstance(n.args[1], ast.Dict) and not n.args[1].keys for n in astx.walk_nodes(arg))
+        if not holder_removed and not astx.find_object(got, carried):
+            ctx.violation("remove:object-on-a-node-not-carried-over", f"the node attribute object of the input is not on the result (copied {carried.copied}x) | in: {witness['query'][:300]}", witness)
+            return
     if not astx.struct_eq(got, exp):
         ctx.violation("remove:ast-differs", f"{astx.first_diff(got, exp)} | in: {witness['query'][:400]} | out: {astx.unparse(got)[:300]}", witness)
     if astx.dump_fields(arg) != snap:
